@@ -275,6 +275,13 @@ def gen_s1(rng, nboards=None, table=None):
         # vulnerability, id and table, at a random earlier position and again at the end
         import copy as _copy
         boards[-1] = _copy.deepcopy(boards[rng.randrange(nboards - 1)])
+    if nboards >= 2 and rng.random() < 0.08:
+        # different boards under the same identifier (two segments both numbered from 1, or no
+        # identifiers at all)
+        same = rng.choice(('1', '', boards[0]['board_id']))
+        for b in boards[rng.randrange(nboards - 1):]:
+            b['board_id'] = same
+        boards[0]['board_id'] = same
     ns = gen_team_name(rng)
     ew = gen_team_name(rng) if rng.random() < 0.9 else ns
     if table is None:
